@@ -2,7 +2,7 @@ package props
 
 import "qeepverif/internal/fw"
 
-// Workload families added in rounds 9-18 (DESIGN.md, section 7), appended to the rule texts that the evidence files report.
+// Workload families added in rounds 9-19 (DESIGN.md, section 7), appended to the rule texts that the evidence files report.
 func init() {
 	for id, more := range map[string]string{
 		"C01": "Rounds 9-15: interleaved construction and re-armed interior tensors; wide fan-in (one Concat over 33..130 interior tensors); selections between neighbouring doubles inside a graph; deep ladders run under a CPU-time bound (20 s for milliseconds of work) instead of a wall clock; operand provenances (13 of 16 leaf constructions go through Reshape / Slice / Concat / Patch / adopted gradients / reducers / MatMul with the identity / Scale(1) / Transpose / a back-propagated graph / a no-op BackPropagate); one long-lived Config object for two creations in three; abandoned consumers.",
@@ -66,6 +66,20 @@ func init() {
 		"C18": "Round 18: Full constants +Inf, -Inf, NaN and MaxFloat64.",
 		"C19": "Round 18: calls whose prediction or target is a caller-side struct embedding a tensor of the right rank and length (refused: counts unchanged; accepted: counted).",
 		"C20": "Round 18: the shared layer has a history (one training step: forward, back-propagation, parameters replaced and re-armed) before it is shared; focused runs of layer jobs.",
+	} {
+		fw.ExtendRule(id, more)
+	}
+	for id, more := range map[string]string{
+		"C02": "Round 19: the divisor of Div as the tracked operand under magnitudes that only fit together (g = 1e200, b = 1e-150, a = 1e-250); Tanh at |x| = 380..700 (derivative exactly 0).",
+		"C04": "Round 19: batch / leading shapes that collide under ad-hoc keys and broadcast against each other ([1,11] x [11,1], [1,111] x [111,1] ...), for MatMul and Dot.",
+		"C06": "Round 19: Reshape between every ordered pair of equal element count inside the colliding shape groups ([11,1] <-> [1,11], [1,2,12] <-> [12,1,2] ...).",
+		"C10": "Round 19: Eye(1..3) called again and again inside histories, tracked and untracked.",
+		"C11": "Round 19: units far beyond the plateau of Tanh (|z| = 400..650) next to ordinary saturated ones.",
+		"C14": "Round 19: ONE layer object per configuration serves all shapes of a colliding group (permutations of equal rank and element count: [1,3,4] / [4,3,1], [2,3,4] / [4,3,2] ...).",
+		"C15": "Round 19: weightings of 1..1.7e308 arriving at Relu / LeakyRelu(|m| <= 1); Sigmoid at |x| = 355.2..357.5 under weightings of the size of 1/derivative.",
+		"C17": "Round 19: a second Update of the tensor the first Update left behind the pointer is refused and replaces nothing.",
+		"C19": "Round 19: zero labels of either sign (-0 and +0 are the same label).",
+		"C20": "Round 19: a shared pool tensor (tracked or untracked) as the TARGET of the shared loss objects; after every run each shared tracked tensor must still be a fresh tracked leaf.",
 	} {
 		fw.ExtendRule(id, more)
 	}
